@@ -43,10 +43,39 @@ def run(tier, seed, replay):
             return True, v["what"], v["task"]
         return None
     chk.run_contract(E, c, replay=replay_cli)
+    # the exit status is what the operating system keeps of the argument of sys.exit (its low 8
+    # bits): every sys.exit in main() passes a literal 0 / 1 or a choice between the two -- a
+    # count or any other integer could wrap to 0
+    import ast as _ast0
+    mainf0 = chk.repo.find_function(CLI.MAIN)
+
+    def small_status(e, depth=0):
+        if isinstance(e, _ast0.Constant) and e.value in (0, 1) and not isinstance(e.value, bool):
+            return True
+        if isinstance(e, _ast0.IfExp):
+            return small_status(e.body, depth) and small_status(e.orelse, depth)
+        if isinstance(e, _ast0.Call) and isinstance(e.func, _ast0.Name) and e.func.id in ("int", "bool") and len(e.args) == 1 \
+                and isinstance(e.args[0], (_ast0.Compare, _ast0.BoolOp, _ast0.UnaryOp)):
+            return True
+        if isinstance(e, _ast0.Name) and depth < 3:
+            vals = [x.value for x in _ast0.walk(mainf0.node) if isinstance(x, _ast0.Assign)
+                    and any(isinstance(t, _ast0.Name) and t.id == e.id for t in x.targets)]
+            aug = [x for x in _ast0.walk(mainf0.node) if isinstance(x, _ast0.AugAssign) and isinstance(x.target, _ast0.Name)
+                   and x.target.id == e.id]
+            return bool(vals) and not aug and all(small_status(v, depth + 1) for v in vals)
+        return False
+    exits = [x for x in _ast0.walk(mainf0.node) if isinstance(x, _ast0.Call) and _ast0.unparse(x.func) in ("sys.exit", "exit")]
+    bad_exits = [_ast0.unparse(x) for x in exits if len(x.args) != 1 or not small_status(x.args[0])]
+    chk.frame("main.exit_statuses_are_literally_0_or_1", bool(exits) and not bad_exits,
+              {"exits": [_ast0.unparse(x) for x in exits], "not_0_or_1": bad_exits},
+              what=f"main() passes something else than 0 / 1 to sys.exit ({bad_exits}): the operating system keeps the low "
+                   "8 bits only, a status such as a count of 256 reads as success")
     # a fatal error is reported by name only if it is the exception main() catches: every
     # explicit raise outside the tokenizer is CParsingError (the tokenizer's own exceptions are C05)
     from .C05 import raise_sites
     raise_sites(chk)
+    from .frames_common import catalogue_names_obligation
+    catalogue_names_obligation(chk)
     # frame of the tail: the diagnostics of a file are what the pipeline put into ITS Errors
     # object -- main() must not rebind or share them, and must run the pipeline for every file
     import ast as _ast
